@@ -377,7 +377,7 @@ def fp_sec_prot(form: int, usage: int, spec: int, aes: bool, ai: int, x0: int, x
         alg, pubmat = 22, OID_ED + bytes([1, 7]) + b'\x40' + bytes(range(32))
     body = pub_body(alg, pubmat) + bytes([usage])
     if spec == 101:
-        body += bytes([0, 101, 2]) + b'\x00GNU' + bytes([1])
+        body += bytes([0, 101]) + b'\x00GNU' + bytes([1])
     else:
         body += bytes([7 if aes else 3, spec, 2])
         if spec >= 1:
